@@ -126,6 +126,42 @@ def r1_leaves(program, rep):
               fail="leaves are not attached to lookup[placements[sink]] of "
                    "the very tree stored in routes[net]: root and lookup "
                    "are not (re)bound together, or another node is used")
+    # the table of endpoint routes is made once, before the nets are
+    # handled, and serves every net: nothing may take entries out of it
+    CON_ = ("elem", P("constraints"))
+    tables = []
+    for b_ in T.binds:
+        if b_.mode != "assign" or b_.value is None:
+            continue
+        t_ = T._bind_term(b_)
+        pt_ = plain(t_)
+        if pt_[0] == "dictcomp" and pt_[1][0] == "pair" and \
+                pt_[1][2] == ("attr", CON_, "route"):
+            tables.append((t_, b_.node.ast))
+        elif t_[0] == "new" and any(
+                x[2] == t_ and plain(x[4]) == ("attr", CON_, "route")
+                for x in stores(T)):
+            tables.append((t_, b_.node.ast))
+    for t_, made in tables:
+        taken = [c_ for n_, c_, recv, args in method_calls(
+            T, ["pop", "popitem", "clear"]) if recv == t_ and
+            _loop_of(c_) is not None and not _inside(made, _loop_of(c_))]
+        for d_ in ast.walk(fn):
+            if isinstance(d_, ast.Delete):
+                for tg in d_.targets:
+                    if isinstance(tg, ast.Subscript) and T.term(
+                            tg.value, cfg.node_of(d_)) == t_ and \
+                            _loop_of(d_) is not None:
+                        taken.append(d_)
+        rep.check(not taken, "C03-R1", inst, "the table of endpoint routes "
+                  "built from the constraints is only read while the nets "
+                  "are handled", construct="endpoint table read-only",
+                  node=taken[0] if taken else fn,
+                  fail="entries are taken out of the table of endpoint "
+                       "routes while the nets are being handled (pop / del "
+                       "/ clear): the constraint of a vertex that is a sink "
+                       "of several nets (or listed twice) is honoured for "
+                       "its first occurrence only")
     # the three cases
     RTE = CORES = None
     for view_c in ast.walk(fn):
